@@ -119,7 +119,10 @@ QForm(di, dj) == 500 * (di * di + dj * dj) + 309 * di * dj
 \* subtract integer parts exactly first
 HalfDelta(cx, qx) == \* (cx / 2 - qx) in thousandths, exact on the integer parts
    LET n == cx[1] - 2 * qx[1] IN (n * 1000 + (cx[2] \div 10)) \div 2 - (qx[2] \div 10)
-PrefixClose(c, q) == LET di == HalfDelta(c[1], q[1]) dj == HalfDelta(c[2], q[2]) IN
-                     /\ di \in -1000..1000 /\ dj \in -1000..1000
-                     /\ QForm(di, dj) <= 500 * 460 * 460
+Bounded(cx, qx) == LET n == cx[1] - 2 * qx[1] IN n >= -4 /\ n <= 4
+CloseQ(c, q) == LET di == HalfDelta(c[1], q[1]) dj == HalfDelta(c[2], q[2]) IN
+                /\ di \in -1000..1000 /\ dj \in -1000..1000
+                /\ QForm(di, dj) <= 500 * 460 * 460
+\* Bounded guards the arithmetic of CloseQ against overflow on wild inputs
+PrefixClose(c, q) == Bounded(c[1], q[1]) /\ Bounded(c[2], q[2]) /\ CloseQ(c, q)
 =============================================================================
